@@ -1046,6 +1046,11 @@ def rule_constant_agreement(em, rep, rid):
     if au is None:
         raise AnalysisError('anchor vanished: Atom.unify')
     cmp_ = [x for x in own_nodes(em.view(au).node) if isinstance(x, ast.Compare) and '_name' in norm(x)]
+    if not cmp_:
+        # double dispatch: the comparison sits in the method of the atom class that the other term calls back
+        for m_ in atom.methods.values():
+            if m_.name not in ('__init__', '__str__', '__repr__', 'to_python', 'name', 'get_value', 'unify'):
+                cmp_ += [x for x in own_nodes(em.view(m_).node) if isinstance(x, ast.Compare) and norm(x).count('_name') >= 2]
     if cmp_ and all(isinstance(c.ops[0], (ast.Eq, ast.NotEq)) for c in cmp_):
         rep.ok(rid, 'atom-unify-by-name', 'atoms unify when their names are equal (==), also across engines', au.loc(cmp_[0]))
     else:
@@ -1070,6 +1075,11 @@ def rule_atoms_unify_by_name(em, rep, rid):
     if au is None:
         raise AnalysisError('anchor vanished: Atom.unify')
     cmp_ = [x for x in own_nodes(em.view(au).node) if isinstance(x, ast.Compare) and '_name' in norm(x)]
+    if not cmp_:
+        # double dispatch: the comparison sits in the method of the atom class that the other term calls back
+        for m_ in atom.methods.values():
+            if m_.name not in ('__init__', '__str__', '__repr__', 'to_python', 'name', 'get_value', 'unify'):
+                cmp_ += [x for x in own_nodes(em.view(m_).node) if isinstance(x, ast.Compare) and norm(x).count('_name') >= 2]
     if cmp_ and all(isinstance(c.ops[0], (ast.Eq, ast.NotEq)) for c in cmp_):
         rep.ok(rid, 'atom-unify-by-name', 'atoms unify when their names are equal (==), also across engines', au.loc(cmp_[0]))
     else:
